@@ -90,7 +90,7 @@ fn whitespace_variant(rng: &mut Rng, line: &str) -> (String, String) {
 }
 
 /// a timing-free base script: every go has a zero slice
-fn base_script(rng: &mut Rng) -> Vec<String> {
+pub fn base_script(rng: &mut Rng) -> Vec<String> {
     let mut lines = vec!["uci".to_string()];
     if rng.chance(1, 2) {
         lines.push("isready".into());
@@ -718,4 +718,50 @@ pub fn replay_c16(scv: &Value) -> Acc {
         }
     }
     acc
+}
+
+/// Fidelity self-test: timing-free scripts (zero-slice go commands, isready, quit or EOF) must
+/// give the same stdout transcript in the simulator and in the real release binary driven
+/// through pipes. Returns (scripts compared, first difference).
+pub fn fidelity(bin: &str, n: u64) -> (u64, Option<String>) {
+    use std::io::Write;
+    for r in 0..n {
+        let mut rng = Rng::new(crate::rng::mix(4242, "fidelity", r));
+        let mut lines = base_script(&mut rng);
+        let eof = rng.chance(1, 3);
+        if !eof {
+            lines.push("quit".into());
+        }
+        // simulator
+        let pairs: Vec<(String, String)> = lines.iter().map(|l| (l.clone(), "\n".to_string())).collect();
+        let sc = script(&pairs, eof, false);
+        let sim = sa::run(&sc);
+        let sim_lines: Vec<String> = sim.out.iter().map(|(_, _, l)| strip_time(l)).collect();
+        // real binary
+        let mut child = match std::process::Command::new(bin).stdin(std::process::Stdio::piped()).stdout(std::process::Stdio::piped()).stderr(std::process::Stdio::null()).spawn() {
+            Ok(c) => c,
+            Err(e) => return (r, Some(format!("cannot start {}: {}", bin, e))),
+        };
+        {
+            let mut stdin = child.stdin.take().unwrap();
+            for l in &lines {
+                let _ = writeln!(stdin, "{}", l);
+            }
+            // dropping stdin closes it (EOF)
+        }
+        let out = match child.wait_with_output() {
+            Ok(o) => o,
+            Err(e) => return (r, Some(format!("wait failed: {}", e))),
+        };
+        let real_lines: Vec<String> = String::from_utf8_lossy(&out.stdout).lines().map(strip_time).collect();
+        if sim_lines != real_lines {
+            let k = sim_lines.iter().zip(real_lines.iter()).take_while(|(a, b)| a == b).count();
+            return (r, Some(format!("script {:?}: line {} differs: simulator {:?} vs real binary {:?}", lines, k, sim_lines.get(k), real_lines.get(k))));
+        }
+        let sim_clean = matches!(sim.end, SimEnd::Exit(_) | SimEnd::IoReturned);
+        if !sim_clean || out.status.code().is_none() {
+            return (r, Some(format!("script {:?}: simulator end {:?}, real exit {:?}", lines, sim.end, out.status.code())));
+        }
+    }
+    (n, None)
 }
